@@ -545,11 +545,7 @@ impl<'de> de::MapAccess<'de> for RecAccess<'de> {
     }
 
     fn size_hint(&self) -> Option<usize> {
-        if self.de.env.cfg.size_hint {
-            Some(self.limit.saturating_sub(self.pos))
-        } else {
-            None
-        }
+        self.de.env.cfg.size_hint.report(self.limit.saturating_sub(self.pos))
     }
 }
 
@@ -602,11 +598,7 @@ impl<'de> de::SeqAccess<'de> for PosAccess<'de> {
     }
 
     fn size_hint(&self) -> Option<usize> {
-        if self.de.env.cfg.size_hint {
-            Some(self.order.len().saturating_sub(self.pos))
-        } else {
-            None
-        }
+        self.de.env.cfg.size_hint.report(self.order.len().saturating_sub(self.pos))
     }
 }
 
@@ -631,11 +623,7 @@ impl<'de> de::SeqAccess<'de> for ItemsAccess<'de> {
         seed.deserialize(child).map(Some)
     }
     fn size_hint(&self) -> Option<usize> {
-        if self.de.env.cfg.size_hint {
-            Some(self.items.len() - self.pos)
-        } else {
-            None
-        }
+        self.de.env.cfg.size_hint.report(self.items.len() - self.pos)
     }
 }
 
